@@ -225,6 +225,25 @@ func Mutations(data []byte, st *State, emit func(m Mutation) bool) {
 				if !emit(Mutation{"key-order", fmt.Sprintf("%s page %d: first key made smaller than its key in parent branch page %d", child.Kind, child.ID, p.ID), img}) {
 					return
 				}
+				// the subtle variant: raise the separator in the parent to the child's second key, so that the child's
+				// first key is below its separator but still above everything in the left sibling
+				if child.Count >= 2 {
+					cb := data[child.ID*uint64(ps):]
+					e1 := PageHdr + ElemSize
+					pos1 := int(le.Uint32(cb[e1+posOff:]))
+					ks1 := int(le.Uint32(cb[e1+ksOff:]))
+					pb := clone(data)
+					pp := pb[p.ID*uint64(ps):]
+					peo := PageHdr + i*ElemSize
+					ppos := int(le.Uint32(pp[peo:]))
+					pks := int(le.Uint32(pp[peo+4:]))
+					if ks1 == pks && ks1 > 0 {
+						copy(pp[peo+ppos:peo+ppos+pks], cb[e1+pos1:e1+pos1+ks1])
+						if !emit(Mutation{"key-order", fmt.Sprintf("branch page %d: separator %d raised to the second key of its child %d", p.ID, i, child.ID), pb}) {
+							return
+						}
+					}
+				}
 			}
 		}
 	}
